@@ -26,7 +26,43 @@ ASSUMPTIONS = ["SII/EEPROM layout per ETG.1000.6 / ETG.2010"]
 T = "ebpfcat.ethercat.Terminal"
 
 
+def source_choice(chk, repo):
+    """R17.4: which source the PDO layout is taken from: CoE objects when
+    the terminal has a mailbox - both mailbox sync managers - and the
+    EEPROM's PDO categories otherwise.  has_mailbox() for the four
+    combinations of the two mailbox offsets (a terminal with one mailbox
+    sync manager has no usable mailbox: the SDO route waits for ever)."""
+    tci = repo.cls(T)
+    f = tci.methods.get("has_mailbox")
+    if f is None:
+        return
+    chk.analysed(T + ".has_mailbox")
+    bad = []
+    for out_, in_ in ((None, None), (0x1000, None), (None, 0x1080),
+                      (0x1000, 0x1080), (0, 0x80), (0x1000, 0)):
+        me = Obj(tci, {"mbx_out_off": out_, "mbx_in_off": in_,
+                       "mbx_out_sz": 128 if out_ is not None else None,
+                       "mbx_in_sz": 128 if in_ is not None else None})
+        try:
+            got = Evaluator(repo, f._module, tci).call_function(
+                f, [me], cls=tci)
+        except (Unknown, Raised) as e:
+            raise AnalysisError(f"{T}.has_mailbox: cannot be evaluated: {e}")
+        want = out_ is not None and in_ is not None
+        if bool(got) != want:
+            bad.append(f"send mailbox at {out_!r}, receive mailbox at "
+                       f"{in_!r}: has_mailbox() is {got!r}")
+    chk.ob("R17.4", T + ".has_mailbox", "a mailbox needs both mailbox sync "
+           "managers (6 combinations by abstract execution)", not bad, f,
+           "; ".join(bad[:2]) + (": parse_pdos takes the CoE route for a "
+                                 "terminal that cannot answer, instead of "
+                                 "the PDO layout stored in its EEPROM"
+                                 if bad else "") or
+           "mbx_out_off is not None and mbx_in_off is not None")
+
+
 def run(chk, repo):
+    source_choice(chk, repo)
     chk.doc("R17.1", "word/byte units")
     chk.doc("R17.2", "busy handling")
     chk.doc("R17.3", "record strides")
